@@ -24,7 +24,7 @@ type propDef struct {
 	thoroughRuns int
 	wallPerRun   time.Duration
 	gen          func(master uint64, idx int, tier string) *spec.RunSpec
-	enumerate    func(master uint64, tier string) []*spec.RunSpec // optional: enumerated part (fault_enumeration)
+	enumerate    func(bin string, master uint64, tier string) ([]*spec.RunSpec, []string) // optional: enumerated part (fault_enumeration); second result = harness problems
 	race         bool
 	rule         string
 	assumptions  []string
@@ -206,8 +206,11 @@ func cmdCheck(args []string) int {
 	}
 	var specs []*spec.RunSpec
 	enumerated := 0
+	var enumProblems []string
 	if p.enumerate != nil {
-		specs = append(specs, p.enumerate(master, tier)...)
+		var es []*spec.RunSpec
+		es, enumProblems = p.enumerate(bin, master, tier)
+		specs = append(specs, es...)
 		enumerated = len(specs)
 	}
 	if p.gen != nil {
@@ -238,7 +241,7 @@ func cmdCheck(args []string) int {
 		}
 		recs = append(recs, rr...)
 	}
-	return finishCheck(p, tier, master, recs, enumerated, t0, buildS, bin)
+	return finishCheck(p, tier, master, recs, enumerated, t0, buildS, bin, enumProblems)
 }
 
 func merge(a, b map[string]string) map[string]string {
@@ -251,9 +254,9 @@ func merge(a, b map[string]string) map[string]string {
 	return a
 }
 
-func finishCheck(p *propDef, tier string, master uint64, recs []*runRec, enumerated int, t0 time.Time, buildS float64, bin string) int {
+func finishCheck(p *propDef, tier string, master uint64, recs []*runRec, enumerated int, t0 time.Time, buildS float64, bin string, pre []string) int {
 	known := loadKnown()
-	harness := []string{}
+	harness := append([]string{}, pre...)
 	type vrec struct {
 		rec *runRec
 		v   spec.Violation
@@ -458,7 +461,11 @@ func cmdGen(args []string) int {
 	}
 	var s *spec.RunSpec
 	if flags["enum"] == "true" && p.enumerate != nil {
-		all := p.enumerate(masterSeed(flags), tier)
+		bin, err := buildSim(false)
+		if err != nil {
+			return 2
+		}
+		all, _ := p.enumerate(bin, masterSeed(flags), tier)
 		if idx < len(all) {
 			s = all[idx]
 		}
